@@ -147,6 +147,32 @@ impl Api {
             AnyCache::Async(c) => bo(c.get(&k)).map(|r| r.value().id),
         }
     }
+    /// another thread keeps a lookup guard (ValueRef) on key k alive for `ms` milliseconds; returns once it is held
+    fn hold_ref(&self, k: u64, ms: u64) -> Option<std::thread::JoinHandle<()>> {
+        let (tx, rx) = mpsc::channel::<bool>();
+        let c = self.0.clone();
+        let h = std::thread::spawn(move || match c {
+            AnyCache::Sync(c) => {
+                let r = c.get(&k);
+                let _ = tx.send(r.is_some());
+                std::thread::sleep(Duration::from_millis(ms));
+                drop(r);
+            }
+            AnyCache::Async(c) => {
+                let r = bo(c.get(&k));
+                let _ = tx.send(r.is_some());
+                std::thread::sleep(Duration::from_millis(ms));
+                drop(r);
+            }
+        });
+        match rx.recv_timeout(Duration::from_secs(5)) {
+            Ok(true) => Some(h),
+            _ => {
+                let _ = h.join();
+                None
+            }
+        }
+    }
     fn clear(&self) -> bool {
         match &self.0 {
             AnyCache::Sync(c) => c.clear().is_ok(),
@@ -221,14 +247,31 @@ fn instance(tx: mpsc::Sender<Value>, seed: u64, flavor: String, exec: String, ti
             api.get(k);
             lookups += 1;
             what = "get";
-        } else if r < 85 && !tiny {
+        } else if r < 90 && !tiny {
             // values resident now are dropped without callback
             api.wait();
             let p = post(&api.0);
             for e in p["store"].as_array().unwrap() {
                 cleared.push(e["v"].as_u64().unwrap());
             }
+            // sometimes another thread holds a lookup guard on a resident key while clear() runs:
+            // clear() has to wait for it, not skip the shard
+            let mut holder = None;
+            if rng.gen_bool(0.6) {
+                if let Some(e) = p["store"].as_array().unwrap().first() {
+                    let idx = e["i"].as_u64().unwrap();
+                    if let Some(k) = crate::cache::KEYTAB.iter().position(|kt| kt.0 == idx) {
+                        holder = api.hold_ref(k as u64, 40);
+                        if holder.is_some() {
+                            lookups += 1;
+                        }
+                    }
+                }
+            }
             api.clear();
+            if let Some(h) = holder {
+                let _ = h.join();
+            }
             lookups = 0;
             what = "clear";
         } else {
